@@ -1,4 +1,5 @@
 """C08 — 64-bit integer arithmetic is exact or reports overflow."""
+import os
 from celmodel.values import I, U, D, to_json, top_outcome, is_crash, I64_MIN, I64_MAX, U64_MAX
 from celmodel.refeval import arith, CelError
 from celmodel.expr import render_literal
@@ -186,7 +187,7 @@ def run_unit(unit, drv, res, seed, tier):
             obs = top_outcome(r)
             res.nt("cross|%s|%s|%r|%r" % (form, op, a, b))
             res.count("cross:" + (obs[1] if obs[0] == 'err' else obs[0]))
-            if not (obs[0] == 'err' and obs[1] == 'type'):
+            if not (obs[0] == 'err'):
                 kindv = obs[0] if is_crash(obs) else ('value-instead-of-error' if obs[0] == 'ok' else 'wrong-error-class')
                 res.violation(kindv, "mixed %s %s %s" % (a[0], op, b[0]),
                               crash_sig(obs) if is_crash(obs) else kindv, c,
@@ -206,7 +207,26 @@ def recheck(cases, out, res):
         elif c.get("vars") and len(c["vars"]) == 2 and c["src"].startswith("a ") and c["src"].endswith(" b"):
             a, b = from_json(c["vars"][0][1]), from_json(c["vars"][1][1])
             op = c["src"][2:-2]
-            exp = expected(op, a, b) if a[0] == b[0] else ('err', 'type')
+            exp = expected(op, a, b) if a[0] == b[0] else ('err', '*')
             print("expected outcome:", fmt_outcome(exp))
             if not same_outcome(exp, obs):
                 res.violation(mismatch_kind(exp, obs), 'replay', 'replay', c)
+
+
+def extra_stages(tier, seed, scratch, total, notes):
+    """Thorough tier: the same sweeps against a plain release build of the driver (overflow checks off):
+    where the checked build would panic, an unchecked build wraps silently - the value oracle sees it."""
+    if tier != 'thorough':
+        return
+    import runner
+    try:
+        binary = runner.build_driver("release")
+    except runner.Inconclusive as e:
+        notes.append({"stage": "release-build", "result": "inconclusive: " + str(e)[:200]})
+        return
+    sub = [u for u in units('quick', seed) if u[0] in ('pairs', 'neg', 'cross')] + [('random', 100 + i) for i in range(8)]
+    t = runner.run_units_with(__name__, sub, binary, os.path.join(scratch, "release"), seed, 'quick')
+    notes.append({"stage": "release-build (overflow checks off)", "units": len(sub), "executions": t.evaluations,
+                  "violations": len(t.violations)})
+    t.observed = {"release:" + k: v for k, v in t.observed.items() if not isinstance(v, set)}
+    total.merge(t)
